@@ -563,12 +563,23 @@ pub fn run_c14(rep: &Report) -> i32 {
         }
     }
     for p0 in &purity_positions {
+        let mut seen_white: Option<i32> = None;
         for stm in [rules::WHITE, rules::BLACK] {
             let mut p = *p0;
             p.stm = stm;
             p.rights = 0;
             p.ep = None;
             let reference = eval_of(&p, &h);
+            // evaluated again after boards with the other side's key have gone by (the search builds such
+            // boards for a null move): the value still negates with the side to move
+            match seen_white {
+                None => seen_white = Some(reference),
+                Some(w) => {
+                    if reference != -w {
+                        rep.fail("C14", "side-to-move-not-negated/after-null-move-style-boards", format!("{}: white to move evaluates to {}, black to move to {} once boards carrying the other side's key have been evaluated", p.fen(), w, reference), J::obj().set("kind", J::s("c14")).set("fen", J::s(&p.fen())).set("eval", J::i(reference)).set("other_side_eval", J::i(w)));
+                    }
+                }
+            }
             for rights in 0..16u8 {
                 for ep in [None, Some(16u8), Some(19), Some(23), Some(40), Some(44), Some(47)] {
                     let mut q = p;
